@@ -252,25 +252,31 @@ Section TrimProofs.
     induction t as [|[s x] r IH]; intros n; cbn [trim_text_g]; [exists []; reflexivity|].
     destruct (ofb x >=? n).
     - destruct (trimb_prefix x n) as [rest Hr]. exists (rest ++ content r).
-      rewrite !content_cons. cbn [content flat_map]. rewrite app_nil_r, app_assoc, <- Hr. reflexivity.
+      rewrite content_cons, content_tfs. cbn [snd]. rewrite app_assoc, <- Hr. reflexivity.
     - destruct (IH (n - ofb x)) as [rest Hr]. exists rest.
       rewrite !content_cons, Hr, app_assoc. reflexivity.
+  Qed.
+
+  Lemma text_width_tfs s y n : 0 <= n -> ofb y <= n -> text_width_g ofb (text_from_seg (s, y)) <= n.
+  Proof.
+    intros Hn Hy. unfold text_from_seg. cbn [snd]. destruct y; cbn [is_nil text_width_g]; lia.
   Qed.
 
   Lemma trim_width t : forall n, 0 <= n -> text_width_g ofb (trim_text_g ofb trimb t n) <= n.
   Proof.
     induction t as [|[s x] r IH]; intros n Hn; cbn [trim_text_g text_width_g]; [lia|].
     destruct (ofb x >=? n) eqn:E.
-    - cbn [text_width_g]. pose proof (trimb_fits x n Hn). lia.
+    - apply text_width_tfs; [exact Hn | apply trimb_fits; exact Hn].
     - rewrite Z.geb_leb in E. apply Z.leb_gt in E. cbn [text_width_g].
       specialize (IH (n - ofb x) ltac:(lia)). lia.
   Qed.
 
   (* the shape of the result: all of t, or some leading segments of t followed
-     by a trimmed copy of the next one *)
+     by the trimmed next one when it is not empty *)
   Lemma trim_shape t : forall n,
     trim_text_g ofb trimb t n = t
-    \/ exists a s x r m, t = a ++ (s, x) :: r /\ trim_text_g ofb trimb t n = a ++ [(s, trimb x m)].
+    \/ exists a s x r m, t = a ++ (s, x) :: r
+                         /\ trim_text_g ofb trimb t n = a ++ text_from_seg (s, trimb x m).
   Proof.
     induction t as [|[s x] r IH]; intros n; cbn [trim_text_g]; [left; reflexivity|].
     destruct (ofb x >=? n).
@@ -281,21 +287,16 @@ Section TrimProofs.
         split; [rewrite E1; reflexivity | rewrite E2; reflexivity].
   Qed.
 
-  (* trim_normal_partial: apart from a possibly empty last segment the result is normal *)
-  Lemma trim_normal_partial t n : Normal t -> Normal (drop_empty_last (trim_text_g ofb trimb t n)).
+  (* trim_normal: TrimWcwidth keeps the normal form, whatever Trim returns *)
+  Lemma trim_normal t n : Normal t -> Normal (trim_text_g ofb trimb t n).
   Proof.
-    intros Hn. destruct (trim_shape t n) as [E | (a & s & x & r & m & E1 & E2)].
-    - rewrite E. unfold drop_empty_last. destruct t as [|sg t'] eqn:Et; [exact I|]. rewrite <- Et in *.
-      assert (Hne : t <> []) by (rewrite Et; congruence).
-      pose proof (Normal_last_nonempty t Hn Hne) as Hl. unfold last_seg in Hl.
-      destruct (snd (last t (style0, []))); [congruence | exact Hn].
-    - rewrite E2. subst t.
-      assert (Hpre : Normal (a ++ [(s, x)])).
-      { change ((s, x) :: r) with ([(s, x)] ++ r) in Hn. rewrite app_assoc in Hn.
-        apply Normal_app in Hn. apply Hn. }
-      unfold drop_empty_last. destruct (a ++ [(s, trimb x m)]) eqn:Ea; [exact I|]. rewrite <- Ea.
-      rewrite last_last. cbn [snd]. destruct (trimb x m) eqn:Et; cbn [is_nil].
-      + rewrite removelast_last. apply Normal_app in Hpre. apply Hpre.
-      + eapply Normal_snoc_retext; [|exact Hpre]. congruence.
+    intros Hn. destruct (trim_shape t n) as [E | (a & s & x & r & m & E1 & E2)]; [rewrite E; exact Hn|].
+    rewrite E2. subst t.
+    assert (Hpre : Normal (a ++ [(s, x)])).
+    { change ((s, x) :: r) with ([(s, x)] ++ r) in Hn. rewrite app_assoc in Hn.
+      apply Normal_app in Hn. apply Hn. }
+    unfold text_from_seg. cbn [snd]. destruct (trimb x m) eqn:Et; cbn [is_nil].
+    - rewrite app_nil_r. apply Normal_app in Hpre. apply Hpre.
+    - eapply Normal_snoc_retext; [|exact Hpre]. congruence.
   Qed.
 End TrimProofs.
